@@ -375,7 +375,7 @@ func r19RequestedSetOnlySelects(c *core.Ctx) {
 // size of the deepest requested level and starts to behave differently depending on what else was requested.
 func r19DeepestQuantitiesStayInside(c *core.Ctx) {
 	const R = "R19"
-	root := c.P.Funcs["snap.SnapPolygon"]
+	root := c.P.Lookup("snap.SnapPolygon")
 	if root == nil || root.SSA == nil {
 		return
 	}
@@ -529,7 +529,7 @@ func derefType(t types.Type) types.Type {
 // behaviour on "is this the deepest level", …) makes a level's result depend on which deeper levels were requested.
 func r19DeepestLevelUses(c *core.Ctx) {
 	const R = "R19"
-	root := c.P.Funcs["snap.SnapPolygon"]
+	root := c.P.Lookup("snap.SnapPolygon")
 	if root == nil || root.SSA == nil {
 		return
 	}
